@@ -532,7 +532,9 @@ void World::ledger_request(Client &cl, const std::string &text) {
 		// exact mode keeps the ledger only so that it is correct if the run has to fall back to it (allocation-failure injection)
 		if (!json_parse(text, j) || j.t != JV::Obj) return;
 		const JV *id = j.get("id");
-		if (id && j.has("method") && (id->t == JV::Str || id->t == JV::Num)) { cl.ledger[idkey(*id)]++; cl.ledger_turn[idkey(*id)] = (long)res.st.batches; }
+		// everything with a usable id is answered, except an incoming response object (result/error without method)
+		bool is_response = !j.has("method") && (j.has("result") || j.has("error"));
+		if (id && !is_response && (id->t == JV::Str || id->t == JV::Num)) { cl.ledger[idkey(*id)]++; cl.ledger_turn[idkey(*id)] = (long)res.st.batches; }
 		return;
 	}
 	if (!json_parse(text, j)) {
